@@ -333,4 +333,308 @@ func genLeader() {
 	}
 	m.strs("statusSubresourceSites", statusWriters,
 		"every `.Status()` / `.SubResource(..)` call in internal/mode/static and internal/framework (non-test, non-fake)")
+
+	genLeaderWiring(m)
+}
+
+// leaderEnclosingFuncs maps every call expression `<x>.statusUpdater.UpdateGroup(...)` of the file to its
+// enclosing top-level function, in source order.
+type leaderCallSite struct {
+	fn   *ast.FuncDecl
+	call *ast.CallExpr
+	stmt ast.Stmt // the statement of fn's body (any depth) that is the call
+}
+
+func leaderUpdateGroupSites(f *srcFile) []leaderCallSite {
+	var out []leaderCallSite
+	for _, d := range f.f.Decls {
+		fd, ok := d.(*ast.FuncDecl)
+		if !ok || fd.Body == nil {
+			continue
+		}
+		walk(fd.Body, func(n ast.Node) bool {
+			es, ok := n.(*ast.ExprStmt)
+			if !ok {
+				return true
+			}
+			ce, ok := es.X.(*ast.CallExpr)
+			if !ok {
+				return true
+			}
+			if se, ok := ce.Fun.(*ast.SelectorExpr); ok && se.Sel.Name == "UpdateGroup" {
+				if inner, ok := se.X.(*ast.SelectorExpr); ok && inner.Sel.Name == "statusUpdater" {
+					out = append(out, leaderCallSite{fd, ce, es})
+				}
+			}
+			return true
+		})
+	}
+	return out
+}
+
+func leaderMentions(n ast.Node, name string) bool {
+	found := false
+	walk(n, func(x ast.Node) bool {
+		if id, ok := x.(*ast.Ident); ok && id.Name == name {
+			found = true
+		}
+		return !found
+	})
+	return found
+}
+
+// C09 wiring: where the slices handed to UpdateGroup come from (aliasing discipline of the call sites) and
+// which handler paths submit which group.
+func genLeaderWiring(m *module) {
+	h := src("internal/mode/static/handler.go")
+	var sites, defs, nonLocal, usesAfter []string
+	for _, cs := range leaderUpdateGroupSites(h) {
+		fn := cs.fn.Name.Name
+		group, arg := "", ""
+		if len(cs.call.Args) > 1 {
+			group = h.text(cs.call.Args[1])
+		}
+		var rest []string
+		for _, a := range cs.call.Args[2:] {
+			rest = append(rest, h.text(a))
+		}
+		arg = strings.Join(rest, ", ")
+		if cs.call.Ellipsis.IsValid() {
+			arg += "..."
+		}
+		sites = append(sites, fn+": "+group+": "+arg)
+		// the argument must be exactly one identifier spread with `...`
+		if len(cs.call.Args) != 3 || !cs.call.Ellipsis.IsValid() {
+			nonLocal = append(nonLocal, fn+": "+group+": not `ident...`: "+arg)
+			continue
+		}
+		id, ok := cs.call.Args[2].(*ast.Ident)
+		if !ok {
+			nonLocal = append(nonLocal, fn+": "+group+": not an identifier: "+arg)
+			continue
+		}
+		// every statement of the enclosing function that declares or assigns the identifier
+		declared := false
+		walk(cs.fn.Body, func(n ast.Node) bool {
+			switch x := n.(type) {
+			case *ast.AssignStmt:
+				for _, l := range x.Lhs {
+					if li, ok := l.(*ast.Ident); ok && li.Name == id.Name {
+						defs = append(defs, fn+": "+h.text(x))
+						if x.Tok == token.DEFINE {
+							declared = true
+						}
+					}
+				}
+			case *ast.DeclStmt:
+				if gd, ok := x.Decl.(*ast.GenDecl); ok {
+					for _, sp := range gd.Specs {
+						if vs, ok := sp.(*ast.ValueSpec); ok {
+							for _, nm := range vs.Names {
+								if nm.Name == id.Name {
+									defs = append(defs, fn+": "+h.text(x))
+									declared = true
+								}
+							}
+						}
+					}
+				}
+			}
+			return true
+		})
+		if !declared {
+			nonLocal = append(nonLocal, fn+": "+group+": "+id.Name+" is not declared in the function")
+		}
+		// any mention of the identifier in a statement that starts after the call statement
+		walk(cs.fn.Body, func(n ast.Node) bool {
+			st, ok := n.(ast.Stmt)
+			if !ok {
+				return true
+			}
+			if _, isBlock := st.(*ast.BlockStmt); isBlock {
+				return true
+			}
+			if st.Pos() > cs.stmt.End() && leaderMentions(st, id.Name) {
+				usesAfter = append(usesAfter, fn+": "+id.Name+": "+h.text(st))
+				return false
+			}
+			return true
+		})
+	}
+	m.strs("updateGroupCallSites", sites,
+		"handler.go: every `.statusUpdater.UpdateGroup(ctx, group, arg)` call: enclosing function, group, argument")
+	m.strs("updateGroupArgDefs", defs,
+		"handler.go: per UpdateGroup call site, every statement of the enclosing function that declares or assigns the argument identifier")
+	m.strs("updateGroupArgNonLocal", nonLocal,
+		"handler.go: UpdateGroup call sites whose argument is not `ident...` with ident declared inside the enclosing function")
+	m.strs("updateGroupArgUsesAfterCall", usesAfter,
+		"handler.go: statements after an UpdateGroup call (same function) that mention the argument identifier")
+
+	// no struct field and no package-level variable of package static / its status package / framework status
+	// holds a slice of UpdateRequest (a buffer that could outlive a call)
+	var fields, pkgVars []string
+	for _, dir := range []string{"internal/mode/static", "internal/mode/static/status", "internal/framework/status"} {
+		for _, rel := range leaderGoFiles(dir, false) {
+			f := src(rel)
+			for _, d := range f.f.Decls {
+				gd, ok := d.(*ast.GenDecl)
+				if !ok {
+					continue
+				}
+				for _, sp := range gd.Specs {
+					switch x := sp.(type) {
+					case *ast.TypeSpec:
+						st, ok := x.Type.(*ast.StructType)
+						if !ok {
+							continue
+						}
+						for _, fl := range st.Fields.List {
+							tt := f.text(fl.Type)
+							if !strings.Contains(tt, "UpdateRequest") {
+								continue
+							}
+							for _, n := range fl.Names {
+								fields = append(fields, rel+": "+x.Name.Name+"."+n.Name+" "+tt)
+							}
+						}
+					case *ast.ValueSpec:
+						if gd.Tok != token.VAR {
+							continue
+						}
+						txt := f.text(x)
+						if strings.Contains(txt, "UpdateRequest") {
+							pkgVars = append(pkgVars, rel+": "+txt)
+						}
+					}
+				}
+			}
+		}
+	}
+	m.strs("requestSliceFields", fields,
+		"struct fields whose type mentions UpdateRequest in internal/mode/static, its status package and internal/framework/status")
+	m.strs("requestPackageVars", pkgVars,
+		"package-level variables that mention UpdateRequest in the same packages")
+
+	// the Prepare*Requests functions return a slice they declared themselves
+	pr := src("internal/mode/static/status/prepare_requests.go")
+	var origins []string
+	for _, d := range pr.f.Decls {
+		fd, ok := d.(*ast.FuncDecl)
+		if !ok || fd.Body == nil || fd.Recv != nil || fd.Type.Results == nil || len(fd.Type.Results.List) != 1 ||
+			!ast.IsExported(fd.Name.Name) {
+			continue
+		}
+		if pr.text(fd.Type.Results.List[0].Type) != "[]frameworkStatus.UpdateRequest" {
+			continue
+		}
+		walk(fd.Body, func(n ast.Node) bool {
+			if _, ok := n.(*ast.FuncLit); ok {
+				return false
+			}
+			rs, ok := n.(*ast.ReturnStmt)
+			if !ok || len(rs.Results) != 1 {
+				return true
+			}
+			id, ok := rs.Results[0].(*ast.Ident)
+			if !ok {
+				origins = append(origins, fd.Name.Name+": return "+pr.text(rs.Results[0]))
+				return true
+			}
+			decl := "?"
+			walk(fd.Body, func(y ast.Node) bool {
+				switch x := y.(type) {
+				case *ast.AssignStmt:
+					if x.Tok == token.DEFINE && len(x.Lhs) == 1 && pr.text(x.Lhs[0]) == id.Name {
+						decl = pr.text(x)
+					}
+				case *ast.DeclStmt:
+					if strings.HasPrefix(pr.text(x), "var "+id.Name+" ") {
+						decl = pr.text(x)
+					}
+				}
+				return true
+			})
+			origins = append(origins, fd.Name.Name+": return "+id.Name+": "+decl)
+			return true
+		})
+	}
+	m.strs("prepareResultOrigins", origins,
+		"prepare_requests.go: every return of an exported function of result type []frameworkStatus.UpdateRequest with the declaration of the returned identifier")
+
+	// which resource kinds each Prepare* function addresses (the judge attributes a write to a group by its kind)
+	var resTypes []string
+	for _, d := range pr.f.Decls {
+		fd, ok := d.(*ast.FuncDecl)
+		if !ok || fd.Body == nil {
+			continue
+		}
+		seen := map[string]bool{}
+		walk(fd.Body, func(n ast.Node) bool {
+			kv, ok := n.(*ast.KeyValueExpr)
+			if !ok {
+				return true
+			}
+			if id, ok := kv.Key.(*ast.Ident); ok && id.Name == "ResourceType" {
+				t := pr.text(kv.Value)
+				if !seen[t] {
+					seen[t] = true
+					resTypes = append(resTypes, fd.Name.Name+": "+t)
+				}
+			}
+			return true
+		})
+	}
+	m.strs("prepareResourceTypes", resTypes,
+		"prepare_requests.go: the distinct `ResourceType:` expressions of UpdateRequest literals, per function")
+
+	// which handler path reaches which call site
+	heb := h.fn("eventHandlerImpl", "HandleEventBatch")
+	tail := ""
+	if n := len(heb.Body.List); n > 0 {
+		tail = h.text(heb.Body.List[n-1])
+	}
+	m.str("handleEventBatchLastStmt", tail, "last top-level statement of HandleEventBatch")
+	noChangeTail := ""
+	walk(heb.Body, func(n ast.Node) bool {
+		if cc, ok := n.(*ast.CaseClause); ok && len(cc.List) == 1 && h.text(cc.List[0]) == "state.NoChange" && len(cc.Body) > 0 {
+			noChangeTail = h.text(cc.Body[len(cc.Body)-1])
+		}
+		return true
+	})
+	m.str("noChangeCaseLastStmt", noChangeTail, "last statement of `case state.NoChange:` in HandleEventBatch")
+	var callersUS, callersCP []string
+	for _, d := range h.f.Decls {
+		fd, ok := d.(*ast.FuncDecl)
+		if !ok || fd.Body == nil {
+			continue
+		}
+		walk(fd.Body, func(n ast.Node) bool {
+			if ce, ok := n.(*ast.CallExpr); ok {
+				switch h.text(ce.Fun) {
+				case "h.updateStatuses":
+					callersUS = append(callersUS, fd.Name.Name+": "+h.text(ce))
+				case "h.updateControlPlaneAndSetStatus":
+					callersCP = append(callersCP, fd.Name.Name+": "+h.text(ce))
+				}
+			}
+			return true
+		})
+	}
+	m.strs("updateStatusesCallers", callersUS, "handler.go: every call of h.updateStatuses with its enclosing function")
+	m.strs("controlPlaneStatusCallers", callersCP,
+		"handler.go: every call of h.updateControlPlaneAndSetStatus with its enclosing function")
+	var filters []string
+	ctor := h.fn("", "newEventHandlerImpl")
+	walk(ctor.Body, func(n ast.Node) bool {
+		kv, ok := n.(*ast.KeyValueExpr)
+		if !ok {
+			return true
+		}
+		if ce, ok := kv.Key.(*ast.CallExpr); ok && h.text(ce.Fun) == "objectFilterKey" && len(ce.Args) > 0 {
+			filters = append(filters, h.text(ce.Args[0])+" => "+h.text(kv.Value))
+			return false
+		}
+		return true
+	})
+	m.strs("objectFilterEntries", filters, "newEventHandlerImpl: object type and callbacks of every objectFilters entry")
 }
